@@ -230,3 +230,147 @@ func fmtInt(i int) string {
 	}
 	return string(b)
 }
+
+// decodedFieldExceptions: serialiser-read fields that no decoder fills, by design.
+var decodedFieldExceptions = map[string]string{
+	"pkg/packet/mrt.BGP4MPMessage.BGPMessagePayload": "writer-side alternative: the raw bytes of a received message, used instead of re-serialising BGPMessage; the reader fills the parsed BGPMessage",
+	"pkg/packet/bmp.BMPRouteMonitoring.BGPUpdatePayload": "writer-side alternative: the raw bytes of the mirrored UPDATE; the reader fills the parsed BGPUpdate",
+}
+
+// ruleDecodedFields: what the serialiser of a decodable type reads, some decoder writes.
+func (c *Ctx) ruleDecodedFields(rule string, shorts []string, min int) {
+	r := c.R
+	r.Rule(rule, "for every struct type that decode-side code allocates and that has a Serialize method: each of its own fields that Serialize reads is populated somewhere in the functions reachable from the parse entry points — by a store to the field or to something inside it, by a whole-struct store, or by handing its address to a call (a nested decoder); a field the writer emits but no reader ever fills re-serialises as zero", min)
+	for _, short := range shorts {
+		alloc, nreach := c.allocatedOnDecodeSide(short)
+		if nreach == 0 {
+			r.Undec(rule, "-", "anchor:entry:"+short, "-", "no parse entry point found")
+			continue
+		}
+		var roots []*ssa.Function
+		for _, k := range decodeEntryPoints {
+			if strings.Contains(k, short+".") {
+				if fn := c.P.Func(k); fn != nil {
+					roots = append(roots, fn)
+				}
+			}
+		}
+		reach := c.reachableFrom(roots)
+		stored := map[*types.Var]bool{}
+		var markChain func(addr ssa.Value, depth int)
+		markChain = func(addr ssa.Value, depth int) {
+			if depth > 8 {
+				return
+			}
+			switch x := addr.(type) {
+			case *ssa.FieldAddr:
+				stored[fieldVarOf(x)] = true
+				markChain(x.X, depth+1)
+			case *ssa.IndexAddr:
+				markChain(x.X, depth+1)
+			case *ssa.UnOp:
+				// element of a slice/map held in a field: p.f[i] = v stores through a load of p.f
+				if _, isSlice := x.Type().Underlying().(*types.Slice); isSlice {
+					markChain(x.X, depth+1)
+				}
+				if _, isMap := x.Type().Underlying().(*types.Map); isMap {
+					markChain(x.X, depth+1)
+				}
+			}
+		}
+		for fn := range reach {
+			for _, b := range fn.Blocks {
+				for _, in := range b.Instrs {
+					switch x := in.(type) {
+					case *ssa.Store:
+						markChain(x.Addr, 0)
+						if s, ok := x.Val.Type().Underlying().(*types.Struct); ok {
+							for i := 0; i < s.NumFields(); i++ {
+								stored[s.Field(i)] = true
+							}
+						}
+					case *ssa.MapUpdate:
+						markChain(x.Map, 0)
+					case ssa.CallInstruction:
+						for _, a := range x.Common().Args {
+							if fa, ok := a.(*ssa.FieldAddr); ok {
+								markChain(fa, 0)
+							}
+							if sl, ok := a.(*ssa.Slice); ok {
+								markChain(sl.X, 0) // &p.arr[:] handed to copy/decoder
+							}
+						}
+					}
+				}
+			}
+		}
+		var names []*types.Named
+		for n := range alloc {
+			if n.Obj().Pkg() != nil && strings.HasSuffix(n.Obj().Pkg().Path(), short) {
+				names = append(names, n)
+			}
+		}
+		sortNamed(names)
+		for _, n := range names {
+			var ser *ssa.Function
+			for _, mn := range []string{"Serialize", "serialize"} {
+				if f := c.P.Func("(*" + short + "." + n.Obj().Name() + ")." + mn); f != nil && f.Blocks != nil {
+					ser = f
+				}
+			}
+			st, ok := n.Underlying().(*types.Struct)
+			if ser == nil || !ok {
+				continue
+			}
+			ownF := map[*types.Var]bool{}
+			for i := 0; i < st.NumFields(); i++ {
+				ownF[st.Field(i)] = true
+			}
+			seen := map[*types.Var]bool{}
+			nread := 0
+			for _, b := range ser.Blocks {
+				for _, in := range b.Instrs {
+					fa, ok := in.(*ssa.FieldAddr)
+					if !ok || fa.X != ssa.Value(ser.Params[0]) {
+						continue
+					}
+					f := fieldVarOf(fa)
+					if !ownF[f] || f.Embedded() || seen[f] {
+						continue
+					}
+					seen[f] = true
+					nread++
+					key := short + "." + n.Obj().Name() + "." + f.Name()
+					fk := short + "." + n.Obj().Name()
+					switch {
+					case stored[f]:
+						// one obligation per type is enough for the OK case; counted below
+					case decodedFieldExceptions[key] != "":
+						r.Except(rule, fk, "field "+f.Name(), c.P.Pos(f.Pos()), decodedFieldExceptions[key])
+					default:
+						r.Bad(rule, fk, "field "+f.Name(), c.P.Pos(f.Pos()), "Serialize reads this field but nothing reachable from the parse entry points ever fills it: a decoded "+n.Obj().Name()+" re-serialises with the field zero, so the bytes it was decoded from are not reproduced")
+					}
+				}
+			}
+			if nread > 0 {
+				r.Ok(rule, short+"."+n.Obj().Name(), "fields read by Serialize", c.P.Pos(n.Obj().Pos()), fmtInt(nread)+" fields read; unfilled ones reported separately")
+			}
+		}
+	}
+}
+
+func fieldVarOf(fa *ssa.FieldAddr) *types.Var {
+	t := fa.X.Type()
+	if p, ok := t.Underlying().(*types.Pointer); ok {
+		t = p.Elem()
+	}
+	return t.Underlying().(*types.Struct).Field(fa.Field)
+}
+
+func sortNamed(ns []*types.Named) {
+	for i := 1; i < len(ns); i++ {
+		for j := i; j > 0 && ns[j].Obj().Name() < ns[j-1].Obj().Name(); j-- {
+			ns[j], ns[j-1] = ns[j-1], ns[j]
+		}
+	}
+}
